@@ -72,6 +72,7 @@ pub struct GeneratorState<'a> {
     deferred_plusplus: Vec<(ExprType, usize, bool)>,
     y_saved_before_condition: bool,
     deferred_before_condition: usize,
+    low_byte_folded: Option<bool>,
     pub current_bank: u32,
     pub functions_code: HashMap<String, AssemblyCode>,
     pub functions_call_tree: HashMap<String, Vec<String>>,
